@@ -198,6 +198,9 @@ def user_future(kind, fut, err="String"):
     val = {"plain": "()", "try": "Ok::<(), %s>(())" % err, "control": "ControlFlow::<%s, ()>::Continue(())" % err}[kind]
     if fut == "async":
         return "{ let v = f.call(); async move { let _ = v; futures::future::ready(()).await; %s } }" % val
+    if fut == "async_borrow":
+        # the usual way to write it: the user future borrows the function (non-mut APIs only)
+        return "async move { let _ = f.call(); futures::future::ready(()).await; %s }" % val
     if fut == "boxed":
         return "{ let v = f.call(); async move { let _ = v; futures::future::ready(()).await; %s }.boxed() }" % val
     return "{ let _ = f.call(); futures::future::ready(%s) }" % val
@@ -280,7 +283,9 @@ def grammar(feature_set):
         src, r = gen_stream(api, w, ft, use)
         progs.append(({"api": api, "ftype": ft, "fut": "-", "use": use}, src, r))
     if feature_set == "default":
-        for (api, mutable, kind, w), ft, fut, use in itertools.product(CONC_APIS, FTYPES, FUTS, CONC_USES):
+        for (api, mutable, kind, w), ft, fut, use in itertools.product(CONC_APIS, FTYPES, FUTS + ["async_borrow"], CONC_USES):
+            if fut == "async_borrow" and mutable:
+                continue  # `FnMut(&mut F) -> Fut`: the future cannot borrow the function
             if ft == "FBorrow" and use == "spawn_static":
                 continue  # a task spawned on a runtime must be 'static: not a program of the domain
             for err in (ERRS if kind != "plain" else ["-"]):
